@@ -34,6 +34,7 @@ class G:
         self.size = size
         self.paren = 0
         self.kd = known_defect_rate
+        self.pure = False  # inside `const`: no fail/todo/trace outside a block
 
     # ------------------------------------------------------------ helpers
     def tag(self, t):
@@ -308,13 +309,18 @@ class G:
     def capture_call(self, d):
         n = self.r.range(1, 4)
         pos = self.r.below(n)
-        args = self.args(d, n, n)
+        args = self.args(d, n, n, allow_label=False)
+        for i in range(n):
+            if i != pos and self.ch(1, 6):
+                self.tag("call:labelled-arg")
+                args[i] = self.name() + ": " + args[i]
         hole = self.pick(DISCARDS) if self.ch(1, 4) else "_"
         if hole != "_":
             self.tag("capture:named-hole")
-        args[pos] = hole if ": " not in args[pos] or self.ch(1, 2) else args[pos].split(": ")[0] + ": " + hole
-        if ": _" in args[pos]:
+        if self.ch(1, 5):
             self.tag("capture:labelled-hole")
+            hole = self.name() + ": " + hole
+        args[pos] = hole
         self.tag(f"capture:pos{pos}of{n}")
         if n >= 2 and self.ch(1, 8):
             self.tag("capture:two-holes")
@@ -437,9 +443,12 @@ class G:
             self.tag("expr:binop-as-value")
             op = self.pick([o for o in BINOPS if o != "|>"])
             others = self.args(d, 0, 2, allow_label=False)
-            others.insert(self.r.below(len(others) + 1), op)
+            # a `-` directly before `)` is read as a unary minus: never put it last
+            others.insert(self.r.below(len(others) + (0 if op == "-" and others else 1)) if not (op == "-" and not others) else 0, op)
+            if op == "-" and others[-1] == "-":
+                others.append(self.name())
             s = self.callee() + "(" + ", ".join(others) + ")"
-        elif k == 23:
+        elif k == 23 and not self.pure:
             self.tag("expr:fail-todo-in-call")
             s = self.callee() + "(" + self.pick(["todo", "fail", 'todo @"later"', 'fail @"no"']) + ", " + self.expr(d - 1) + ")"
         elif k == 24:
@@ -544,7 +553,7 @@ class G:
                 p = self.pick(DISCARDS)
             else:
                 self.tag("lambda:pattern-arg")
-                p = self.pat(1)
+                p = self.pick(["(a, b)", "Foo { a, b }", "Pair(k, v)", "[x, ..]", "Some(x)", "Foo(a, _) as whole", "Foo.Bar(x)", "[]", "(a, (b, c))"])
             if self.ch(1, 3):
                 self.tag("lambda:annotated-arg")
                 p += ": " + self.ann(1)
@@ -575,7 +584,7 @@ class G:
         if k == 0:
             self.tag("clause:block")
             return "{\n" + self.sequence(d - 1) + "\n}"
-        if k == 1:
+        if k == 1 and not self.pure:
             self.tag("clause:fail-todo")
             return self.pick(["fail", "todo", 'fail @"impossible"', 'todo @"x"', "fail err_msg"])
         return self.expr(d - 1)
@@ -646,7 +655,7 @@ class G:
                 self.tag("stmt:backpassing-multi")
             kw = self.pick(["let", "let", "expect"])
             return kw + " " + ", ".join(ps) + " <- " + self.callee() + "(" + self.sepjoin(self.args(d, 0, 2)) + ")"
-        if k == 6:
+        if k == 6 and not self.pure:
             self.tag("stmt:trace")
             label = self.pick([self.string_lit(), '"bytes label"', self.name(), self.callee() + "(" + self.name() + ")"])
             s = "trace " + label
@@ -669,7 +678,7 @@ class G:
             last = i == n - 1
             if last:
                 k = self.r.below(10)
-                if k == 0:
+                if k == 0 and not self.pure:
                     self.tag("stmt:tail-fail-todo")
                     out.append(self.pick(["fail", "todo", 'fail @"msg"', 'todo @"msg"', 'fail "bytes msg"', "todo " + self.name(), "fail string.concat(a, b)"]))
                 elif k == 1 and n > 1:
@@ -734,7 +743,11 @@ class G:
         if self.ch(1, 2):
             self.tag("def:const-annotated")
             a = ": " + self.ann(2)
-        return pub + "const " + self.name() + a + " = " + self.expr(2)
+        self.pure = True
+        try:
+            return pub + "const " + self.name() + a + " = " + self.expr(2)
+        finally:
+            self.pure = False
 
     def decorators(self):
         if self.ch(1, 5):
